@@ -58,6 +58,9 @@ type Obs struct {
 	Notes     []string `json:"notes,omitempty"`
 	Races     int      `json:"races"` // data race reports written by the race detector during the case
 	Plumb     *PlumbObs `json:"plumb,omitempty"`
+	// quiet points: at these positions of the trace every goroutine was parked or blocked (gate.go)
+	Quiets    []Quiet  `json:"quiets,omitempty"`
+	Probes    int      `json:"-"`
 	Widths    []int    `json:"-"`
 }
 
@@ -323,6 +326,11 @@ func (e *env) runSched(in Input) Obs {
 	ctl.mu.Lock()
 	obs.Trace = append([]Ev(nil), ctl.trace...)
 	obs.Widths = append([]int(nil), ctl.widths...)
+	obs.Quiets = append([]Quiet(nil), ctl.quiets...)
+	obs.Probes = ctl.probes
+	if os.Getenv("C14_DUMP") != "" && ctl.dump != "" {
+		obs.Notes = append(obs.Notes, "goroutines at the first quiet point with a blocked goroutine:\n"+ctl.dump)
+	}
 	for _, a := range ctl.actors {
 		obs.WrongRows += a.wrong
 	}
@@ -398,6 +406,12 @@ func maskOf(sig string) int {
 	if strings.Contains(sig, "row-swallows-error") {
 		m |= 2
 	}
+	if strings.Contains(sig, "commit-waits-for-execution") {
+		m |= 4
+	}
+	if strings.Contains(sig, "close-queues-use") {
+		m |= 8
+	}
 	return m
 }
 
@@ -410,7 +424,10 @@ func term(in Input, o Obs, mask int) string {
 		plumbs = lib.List([]string{gPlumb(*in.Plumb, *o.Plumb)})
 	}
 	return lib.App("mk_case", lib.Bool(modelGuard), progs, lib.ListOf(o.Trace, gEv), lib.Bool(o.Hang),
-		lib.Nat(o.Leaked), lib.Nat(o.OpenStmts), lib.Nat(o.WrongRows), lib.Nat(o.Races), plumbs, lib.Nat(mask))
+		lib.Nat(o.Leaked), lib.Nat(o.OpenStmts), lib.Nat(o.WrongRows), lib.Nat(o.Races), plumbs, lib.Nat(mask),
+		lib.ListOf(o.Quiets, func(q Quiet) string {
+			return "(" + lib.Nat(q.Pos) + ", " + lib.ListOf(q.Stuck, func(t int) string { return lib.Nat(t) }) + ")"
+		}))
 }
 
 // ---- signatures of the known findings (computed from programs + schedule, never from results)
@@ -420,6 +437,7 @@ type window struct {
 	op                 Op
 	start, end         int // positions in the trace (end = len if missing)
 	execcall           int // -1 if none
+	execret            int // position of the driver's answer to that call, -1 if none (yet)
 	failret            int // position of this operation's failing Prepare return / ErrBadConn return, -1 if none
 	badret             int
 }
@@ -432,7 +450,7 @@ func windows(in Input, tr []Ev) []window {
 		switch e.K {
 		case "start":
 			if e.T < len(in.Progs) && idx[e.T] < len(in.Progs[e.T]) {
-				cur[e.T] = &window{t: e.T, idx: idx[e.T], op: in.Progs[e.T][idx[e.T]], start: pos, end: len(tr), execcall: -1, failret: -1, badret: -1}
+				cur[e.T] = &window{t: e.T, idx: idx[e.T], op: in.Progs[e.T][idx[e.T]], start: pos, end: len(tr), execcall: -1, execret: -1, failret: -1, badret: -1}
 			}
 		case "execcall":
 			if w := cur[e.T]; w != nil {
@@ -443,6 +461,9 @@ func windows(in Input, tr []Ev) []window {
 				w.failret = pos
 			}
 		case "execret":
+			if w := cur[e.T]; w != nil {
+				w.execret = pos
+			}
 			if w := cur[e.T]; w != nil && e.O == "bad" && w.op.K != "row" {
 				w.failret, w.badret = pos, pos
 			}
@@ -536,6 +557,15 @@ func sig(in Input, tr []Ev) string {
 				if isUse(r.op) && r.badret >= 0 && r.badret < lim && w.start < r.end {
 					found["close-races-use"] = true
 				}
+				// close-queues-use: the same overlap with a Close, while a third goroutine's execution
+				// is with the driver (the use waits behind Close's closer, which waits for that execution)
+				if r.op.K == "close" && r.start < lim && w.start < r.end {
+					for _, x := range ws {
+						if x.t != w.t && x.t != r.t && x.execcall >= 0 && x.execcall < lim && (x.execret < 0 || x.execret > r.start) && (x.execret < 0 || x.execret > w.start) {
+							found["close-queues-use"] = true
+						}
+					}
+				}
 			}
 		}
 		// row-swallows-error: a QueryRow whose preparation can fail (failed Prepare of its
@@ -551,6 +581,46 @@ func sig(in Input, tr []Ev) string {
 					found["row-swallows-error"] = true
 				}
 			}
+		}
+	}
+	// commit-waits-for-execution: a Reset/Close runs while a transaction of another goroutine is open
+	// and has used the cache, and when that transaction's last operation ends (the harness commits
+	// right after it) an execution of another goroutine is with the driver
+	for _, w := range ws {
+		last := w.op.Tx && w.end < len(tr) && (w.idx+1 == len(in.Progs[w.t]) || !in.Progs[w.t][w.idx+1].Tx)
+		if !last {
+			continue
+		}
+		runStart := w.start
+		for _, p := range ws { // first operation of this transaction
+			if p.t == w.t && p.idx < w.idx && p.start < runStart {
+				all := true
+				for k := p.idx; k <= w.idx; k++ {
+					all = all && in.Progs[w.t][k].Tx
+				}
+				if all {
+					runStart = p.start
+				}
+			}
+		}
+		cut, busy := false, false
+		for _, r := range ws {
+			// eviction (go stmt.Close()), also by the transaction's own goroutine
+			if isUse(r.op) && r.badret >= 0 && r.badret < w.end && r.badret > runStart {
+				cut = true
+			}
+			if r.t == w.t {
+				continue
+			}
+			if (r.op.K == "reset" || r.op.K == "close") && r.start < w.end && r.end > runStart {
+				cut = true
+			}
+			if r.execcall >= 0 && r.execcall < w.end && (r.execret < 0 || r.execret > w.end) {
+				busy = true
+			}
+		}
+		if cut && busy {
+			found["commit-waits-for-execution"] = true
 		}
 	}
 	var names []string
@@ -682,6 +752,12 @@ func genInput(r *lib.Rng, maxG int, edge bool) Input {
 		in.Progs = append(in.Progs, genProg(r, n, edge))
 		total += n
 	}
+	// a goroutine that only cuts the cache (Close or Reset) while the others are at work: whatever the
+	// others are parked in, it must come back, and they must not queue behind it
+	if r.Chance(1, 6) {
+		in.Progs = append(in.Progs, []Op{{K: lib.Pick(r, []string{"close", "reset", "close"})}})
+		total++
+	}
 	in.Progs = append(in.Progs, []Op{{K: "close"}})
 	in.Handles = genHandles(r, in.Progs, 1, 3)
 	burst := r.Chance(1, 5)
@@ -694,7 +770,7 @@ func genInput(r *lib.Rng, maxG int, edge bool) Input {
 		if burst && (k == 0 || r.Chance(1, 6)) {
 			pick = -1
 		}
-		in.Script = append(in.Script, Step{Pick: pick, Out: out, Hold: r.Chance(1, 4)})
+		in.Script = append(in.Script, Step{Pick: pick, Out: out, Hold: r.Chance(1, 4), Probe: r.Chance(1, 12)})
 	}
 	return in
 }
@@ -875,6 +951,15 @@ func main() {
 		out.Count("finding_signature", s)
 		out.Count("leaked", fmt.Sprint(o.Leaked))
 		out.Count("hang", fmt.Sprint(o.Hang))
+		out.Count("quiet_points", fmt.Sprint(len(o.Quiets)/5*5))
+		nstuck := 0
+		for _, q := range o.Quiets {
+			if len(q.Stuck) > 0 {
+				nstuck++
+			}
+		}
+		out.Count("quiet_points_with_blocked_goroutine", fmt.Sprint(nstuck))
+		out.Count("rest_tests", fmt.Sprint(o.Probes))
 		return o
 	}
 	load := func(f string) Input {
@@ -956,6 +1041,11 @@ func main() {
 			enumBase(add, [][]Op{{q("query", false)}, {{K: "reset"}}}, f, 40, false)
 			enumBase(add, [][]Op{{q("exec", false)}, {{K: "close"}}}, f, 40, false)
 		}
+		// Close / Reset while an execution is parked in the driver and a third goroutine uses the
+		// cache (another text, the same text): every completion order; who is blocked at each
+		// decision is part of the observation (quiet points)
+		enumBase(add, [][]Op{{q("exec", false)}, {{K: "close"}}, {{K: "query", Q: 1}}}, -1, 70, false)
+		enumBase(add, [][]Op{{q("query", false)}, {{K: "reset"}}, {q("exec", false)}}, -1, 70, false)
 		// the same with a reader holding Mux.RLock whenever a Prepare call completes
 		enumBase(add, [][]Op{{q("query", false)}, {q("exec", false)}}, -1, 120, true)
 		enumBase(add, [][]Op{{q("query", false)}, {q("query", true)}, {{K: "reset"}}}, -1, 60, true)
